@@ -12,9 +12,13 @@ setup_path()
 import importlib  # noqa: E402
 
 props = [json.loads(l) for l in open(os.path.join(HERE, 'properties.jsonl'))]
+# only checks listed in tools/claimed.txt are claimed (modules still under
+# construction may exist on disk)
+CLAIMED = set(open(os.path.join(HERE, 'tools', 'claimed.txt')).read().split())
 mods = {}
 for fn in sorted(os.listdir(os.path.join(HERE, 'vf', 'props'))):
-    if fn.startswith('c') and fn.endswith('.py'):
+    if fn.startswith('c') and fn.endswith('.py') and \
+            fn[:3].upper() in CLAIMED:
         m = importlib.import_module('vf.props.' + fn[:-3])
         mods[m.META['id']] = (m, fn)
 
